@@ -89,7 +89,7 @@ def gen_case(rng, size="small"):
     extra_contigs = [c for c in CHROM_POOL if c not in chroms]
     rng.shuffle(extra_contigs)
     extra_contigs = extra_contigs[:rng.choice([0, 0, 1, 2])]
-    miss_rate = rng.choice([0, 0, 0, 0.08, 0.2, 0.5])
+    miss_rate = rng.choice([0, 0, 0, 0, 0, 0, 0, 0.08, 0.2, 0.5])
     ps_missing = rng.random() < 0.06        # phased heterozygous calls with PS="."
     unsorted = rng.random() < 0.02
     maxrec = {"tiny": 6, "small": 14, "large": 60}[size]
@@ -192,7 +192,7 @@ def gen_case(rng, size="small"):
                     elif "|" in gt and (tagkind in ("HP", "none") or cls == "missing"):
                         gt = gt.replace("|", "/")
                 calls.append((gt, psv, hpv))
-            if rng.random() < 0.02:
+            if miss_rate > 0 and rng.random() < 0.03:
                 fmt, cols = "DP", [str(rng.randint(1, 40)) for _ in samples]     # record without GT
             elif tagkind == "HP":
                 fmt, cols = "GT:HP", [f"{g}:{h}" for g, p, h in calls]
@@ -351,8 +351,8 @@ def case_term(only_snvs, indexed, contigs, groups, given, ids, out):
     header = "[" + "; ".join(f"({ids[c]}, {'None' if l is None else f'Some {l}'})" for c, l in contigs) + "]"
     gr = "[" + ";\n  ".join(f"({ids[c]}, [" + "; ".join(rec_term(r) for r in recs) + "])" for c, recs in groups) + "]"
     gv = "[" + "; ".join(str(ids[c]) for c in given) + "]"
-    return (f"(({'true' if only_snvs else 'false'}, {'true' if indexed else 'false'}), {header},\n  {gr},\n  "
-            f"{gv}, {out_term(out)})")
+    return (f"((({'true' if only_snvs else 'false'}, {'true' if indexed else 'false'}), {header},\n  {gr},\n  "
+            f"{gv}, {out_term(out)}) : case_t)")
 
 
 # ------------------------------------------------------------------------------------------------ python oracle
